@@ -331,7 +331,7 @@ class Run:
             searched = 0
             found = None
             for fam in fams:
-                n = max(fam.get("thorough", fam["quick"]), fam["quick"] * 5)
+                n = fam.get("search", min(max(fam.get("thorough", fam["quick"]), fam["quick"] * 5), fam["quick"] * 20))
                 r = self.run_family(fam, (self.seed + 7) * 2000003 % (1 << 40), n, "search")
                 searched += r["runs"]
                 for (s, w, tf) in r["oracle"]:
